@@ -64,6 +64,7 @@ class Exec:
         self.depth = 0
         self.bound = 0  # depth of enclosing comprehensions / map loops
         self.known = []  # path conditions (value, polarity) of the branch being executed
+        self.watch = {}  # function / method name -> list of (path conditions, args, kwargs) of every call met
         self.funcs = {n.name: n for n in tree.body if isinstance(n, ast.FunctionDef)}
         self.classes = {n.name: n for n in tree.body if isinstance(n, ast.ClassDef)}
 
@@ -203,14 +204,20 @@ class Exec:
         return c
 
     def branch(self, c, then_fn, else_fn):
+        # a path that leaves the subset becomes a ("stuck", reason) leaf, so that the other paths are still explored;
+        # run_function rejects trees with such leaves unless asked not to
         self.known.append((c, True))
         try:
             a = then_fn()
+        except Untranslatable as e:
+            a = ("stuck", e)
         finally:
             self.known.pop()
         self.known.append((c, False))
         try:
             b = else_fn()
+        except Untranslatable as e:
+            b = ("stuck", e)
         finally:
             self.known.pop()
         return ("if", c, a, b)
@@ -335,6 +342,9 @@ class Exec:
                 return ("map", ("bv", self.bound + 1), args[0])  # [i for i in range(..)]
         if f == ("sym", "int") and len(args) == 1 and is_const(args[0]) and type(args[0][1]) is int:
             return args[0]
+        wname = f[1] if f[0] == "sym" else f[2] if f[0] == "attr" else None
+        if wname in self.watch:
+            self.watch[wname].append((tuple(self.known), args, kwargs))
         target = self.resolve(f)
         if target is not None:
             fn, selfv, owner = target
@@ -377,7 +387,7 @@ class Exec:
         """Helpers are inlined only when their body is loop-free apart from loops this executor can handle, and they
         do not use constructs the executor rejects; checked by trying, so here only the cheap syntactic exclusions."""
         for n in ast.walk(fn):
-            if isinstance(n, (ast.While, ast.Try, ast.With, ast.Yield, ast.YieldFrom, ast.Global, ast.Nonlocal, ast.Lambda, ast.Await)):
+            if isinstance(n, (ast.While, ast.Try, ast.Yield, ast.YieldFrom, ast.Global, ast.Nonlocal, ast.Lambda, ast.Await)):
                 return False
         if fn.args.vararg or fn.args.kwarg:
             return False
@@ -414,6 +424,7 @@ class Exec:
         sub.depth = self.depth + 1
         sub.bound = self.bound
         sub.known = self.known
+        sub.watch = self.watch
         tree = sub.block(strip_doc(fn.body), env, lambda e: ("ret", NONE))
         return self.tree_value(tree, node)
 
@@ -424,6 +435,8 @@ class Exec:
             return ("raisev", tree[1])
         if tree[0] == "if":
             return ("ife", tree[1], self.tree_value(tree[2], node), self.tree_value(tree[3], node))
+        if tree[0] == "stuck":
+            raise tree[1]
         self.fail(node, "inlined helper with effects")
 
     # ---------------------------------------------------------------------------------------- statements
@@ -520,6 +533,19 @@ class Exec:
             return self.map_loop(s, it, env, cont)
         if isinstance(s, (ast.Import, ast.ImportFrom)):
             return cont(env)
+        if isinstance(s, ast.With):
+            # context managers (seeding, no_grad, ..) are effects around the body; the body is executed in place
+            e2 = dict(env)
+            ctxs = []
+            for item in s.items:
+                v = self.ev(item.context_expr, e2)
+                ctxs.append(v)
+                if item.optional_vars is not None:
+                    self.bind(item.optional_vars, ("call", ("attr", v, "__enter__"), (), ()), e2)
+            inner = self.block(list(s.body) + rest, e2, k)
+            for v in reversed(ctxs):
+                inner = ("do", ("call", ("sym", "with"), (v,), ()), inner)
+            return inner
         self.fail(s, "statement outside subset")
 
     def unroll(self, s, items, i, env, cont):
@@ -654,7 +680,28 @@ def strip_doc(body):
     return list(body)
 
 
-def run_function(tree, path, qualname, opaque=(), inline=None, args=None, max_depth=4):
+def watch_calls(tree, path, qualname, names, opaque=(), inline=None):
+    """Every call of the named functions / methods met while executing `qualname` symbolically, as (path conditions,
+    args, kwargs); execution goes as far as the subset allows (the calls met before an untranslatable statement are still
+    reported, together with the reason execution stopped)."""
+    parts = qualname.split(".")
+    node = tree
+    for p in parts:
+        node = next((ch for ch in node.body if isinstance(ch, (ast.FunctionDef, ast.ClassDef)) and ch.name == p), None)
+        if node is None:
+            raise Untranslatable("definition %s not found" % qualname, None, path)
+    ex = Exec(tree, path, cls=parts[0] if len(parts) == 2 else None, opaque=set(opaque) | {parts[-1]} | set(names), inline=inline)
+    ex.watch = {n: [] for n in names}
+    env = {a.arg: ("sym", a.arg) for a in node.args.posonlyargs + node.args.args + node.args.kwonlyargs}
+    stopped = None
+    try:
+        ex.block(strip_doc(node.body), env, lambda e: ("ret", NONE))
+    except Untranslatable as e:
+        stopped = e
+    return ex.watch, stopped
+
+
+def run_function(tree, path, qualname, opaque=(), inline=None, args=None, max_depth=4, allow_stuck=False):
     """Outcome tree of `func` / `Class.method` with its parameters as symbols (`args` may bind some to given values)."""
     parts = qualname.split(".")
     cls = parts[0] if len(parts) == 2 else None
@@ -673,7 +720,22 @@ def run_function(tree, path, qualname, opaque=(), inline=None, args=None, max_de
         env[a.arg] = ("sym", a.arg)
     if args:
         env.update(args)
-    return ex.block(strip_doc(node.body), env, lambda e: ("ret", NONE)), node
+    tree = ex.block(strip_doc(node.body), env, lambda e: ("ret", NONE))
+    if not allow_stuck:
+        st = first_stuck(tree)
+        if st is not None:
+            raise st
+    return tree, node
+
+
+def first_stuck(tree):
+    if tree[0] == "stuck":
+        return tree[1]
+    if tree[0] == "if":
+        return first_stuck(tree[2]) or first_stuck(tree[3])
+    if tree[0] == "do":
+        return first_stuck(tree[2])
+    return None
 
 
 # ------------------------------------------------------------------------------------------------ outcome-tree utilities
@@ -715,6 +777,8 @@ def prune_raises(tree):
         return None if inner is None else ("do", tree[1], inner)
     if tree[0] == "raise":
         return None
+    if tree[0] == "stuck":
+        raise tree[1]
     return tree
 
 
